@@ -100,6 +100,8 @@ type results struct {
 	Assumptions  map[string]int64  `json:"assumptions"`
 	Stubs        map[string]int64  `json:"stubs"`
 	Notes        map[string]string `json:"notes"`
+	StatusTrail  map[string]string `json:"status_trail"`
+	StatusEvents map[string][]string `json:"status_events"`
 	failKeys     map[string]bool
 	minSampleEvents int
 }
@@ -107,7 +109,7 @@ type results struct {
 func newResults() *results {
 	return &results{ByStatus: map[string]int64{}, Reach: map[string]int64{}, Unsupported: map[string]int64{},
 		Functions: map[string]int{}, Obligations: map[string]int64{}, Assumptions: map[string]int64{},
-		Stubs: map[string]int64{}, Notes: map[string]string{}, failKeys: map[string]bool{}}
+		Stubs: map[string]int64{}, Notes: map[string]string{}, failKeys: map[string]bool{}, StatusTrail: map[string]string{}, StatusEvents: map[string][]string{}}
 }
 
 // ---- query cache ----
@@ -655,6 +657,14 @@ func (e *explorer) merge(ex *exec) {
 		st = ex.abort.status
 	}
 	r.ByStatus[st]++
+	if _, ok := r.StatusTrail[st]; !ok && st != "ok" {
+		parts := make([]string, ex.pos)
+		for i := 0; i < ex.pos; i++ {
+			parts[i] = fmt.Sprint(ex.trail[i])
+		}
+		r.StatusTrail[st] = strings.Join(parts, ",")
+		r.StatusEvents[st] = append([]string{}, ex.events...)
+	}
 	r.Decisions += int64(ex.pos)
 	r.Steps += ex.steps
 	for k := range ex.reach {
